@@ -316,6 +316,11 @@ class GenSCC(F.Gen):
                     continue
                 for idx in self.idx_options(a, lc, for_write=True):
                     targets.append((a, idx))
+            if not targets:
+                z = rng.choice(ks['privs'])
+                out.append(assign(V(z), self.rexpr(ks, lc, body)))
+                body['priv'].add(z)
+                continue
             # prefer temporaries now and then so that they get defined
             tmps = [t_ for t_ in targets if t_[0].tmp]
             a, idx = rng.choice(tmps if tmps and rng.random() < 0.45 else targets)
@@ -883,6 +888,8 @@ def make_scheduler(text, workdir, fname='kmod.f90'):
     from loki import Scheduler, config as loki_config
     try:
         loki_config['regex-frontend-timeout'] = 600
+        from loki import logging as loki_logging
+        loki_logging.set_log_level('ERROR')     # pylint: disable=no-member
     except Exception:  # pylint: disable=broad-except
         pass
     os.makedirs(workdir, exist_ok=True)
@@ -966,11 +973,12 @@ def _first_diag(err):
     return '\n'.join(lines[:12]) or 'Error: non-zero exit status'
 
 
-def behaviour_check_multi(ctx, label, cases, variants, transform, *, entry='kernel', max_disagree=0.03, check_flags=True, workers=6):
+def behaviour_check_multi(ctx, label, cases, variants, transform, *, entry='kernel', max_disagree=0.03, check_flags=True, workers=6, pick=None):
     """cases: list of (prog, inputs).  variants: list of variant names; transform(variant, text, prog, workdir) ->
     [(file, text)] or raises F.NotApplicable.  For every program: gfortran(original) once (pre-flight), one build per
     variant.  TLC (Trace_FMachine) validates every DISTINCT (program, input, observed output): the verdict is a
     function of exactly these three, so equal observations share one TLC evaluation.
+    pick: optional {case index: [variants for this case]} (default: all variants for every case).
     Returns (results, fails, legal) with fails: {variant: [(idx, kind, msg)]}."""
     import concurrent.futures as cf
     import json
@@ -999,7 +1007,7 @@ def behaviour_check_multi(ctx, label, cases, variants, transform, *, entry='kern
         if res['orig'][0] != 'ok':
             continue
         prog = cases[res['idx']][0]
-        for v in variants:
+        for v in (pick[res['idx']] if pick else variants):
             try:
                 res['srcs'][v] = transform(v, res['text'], copy.deepcopy(prog), os.path.join(ctx.work, f"{label}-{res['idx']}-{v}-tr"))
                 jobs.append((res, v))
@@ -1122,16 +1130,16 @@ C37_VARIANTS = {
     'vvector':            ('SCCVVectorPipeline', dict(directive='openacc')),
     'vvector-trim':       ('SCCVVectorPipeline', dict(directive='openacc', trim_vector_sections=True)),
     'vvector-nodemote':   ('SCCVVectorPipeline', dict(directive='omp-gpu', demote_local_arrays=False)),
-    'vvector-vertical':   ('SCCVVectorPipeline', dict(directive=None, vertical=True)),
+    'vvector-vertical':   ('SCCVVectorPipeline', dict(vertical=True)),
     'svector':            ('SCCSVectorPipeline', dict(directive='openacc')),
-    'svector-trim':       ('SCCSVectorPipeline', dict(directive=None, trim_vector_sections=True, vertical=True)),
+    'svector-trim':       ('SCCSVectorPipeline', dict(directive='openmp', trim_vector_sections=True, vertical=True)),
     'vhoist':             ('SCCVHoistPipeline', dict(directive='openacc')),
     'vhoist-kw':          ('SCCVHoistPipeline', dict(directive='openacc', as_kwarguments=True, vertical=True)),
     'shoist':             ('SCCSHoistPipeline', dict(directive='openacc')),
     'shoist-kw':          ('SCCSHoistPipeline', dict(directive='openacc', as_kwarguments=True)),
     'vstack':             ('SCCVStackPipeline', dict(directive='openacc', check_bounds=True)),
     'vstack-nocheck':     ('SCCVStackPipeline', dict(directive='openacc', check_bounds=False)),
-    'vstack-locrhs':      ('SCCVStackPipeline', dict(directive=None, check_bounds=True, cray_ptr_loc_rhs=True)),
+    'vstack-locrhs':      ('SCCVStackPipeline', dict(check_bounds=True, cray_ptr_loc_rhs=True)),
     'sstack':             ('SCCSStackPipeline', dict(directive='openacc', check_bounds=True)),
     'vftrptr':            ('SCCVStackFtrPtrPipeline', dict(directive='openacc', strip=True)),
     'sftrptr':            ('SCCSStackFtrPtrPipeline', dict(directive='openacc', strip=True)),
